@@ -1425,43 +1425,37 @@ impl LpgStore {
     pub fn add_label(&self, node_id: NodeId, label: &str) -> bool {
         let epoch = self.current_epoch();
 
-        // Check if node exists
-        let nodes = self.nodes.read();
-        if let Some(chain) = nodes.get(&node_id) {
-            if chain.visible_at(epoch).map_or(true, |r| r.is_deleted()) {
-                return false;
-            }
-        } else {
-            return false;
-        }
-        drop(nodes);
-
-        // Get or create label ID
+        // Get or create label ID (catalog locks are released before the entity lock is taken)
         let label_id = self.get_or_create_label_id(label);
 
-        // Add to node_labels map
+        // Take the locks in the documented order (nodes, label_index, node_labels) and hold
+        // them for the whole update, so a concurrent delete_node / add_label / remove_label
+        // can neither interleave with it nor deadlock against it.
+        let mut nodes = self.nodes.write();
+        let Some(chain) = nodes.get_mut(&node_id) else {
+            return false;
+        };
+        if chain.visible_at(epoch).map_or(true, |r| r.is_deleted()) {
+            return false;
+        }
+        let mut index = self.label_index.write();
         let mut node_labels = self.node_labels.write();
-        let label_set = node_labels.entry(node_id).or_default();
 
-        if label_set.contains(&label_id) {
+        // Add to node_labels map
+        let label_set = node_labels.entry(node_id).or_default();
+        if !label_set.insert(label_id) {
             return false; // Already has this label
         }
-
-        label_set.insert(label_id);
-        drop(node_labels);
+        let count = label_set.len();
 
         // Add to label_index
-        let mut index = self.label_index.write();
         if (label_id as usize) >= index.len() {
             index.resize(label_id as usize + 1, FxHashMap::default());
         }
         index[label_id as usize].insert(node_id, ());
 
         // Update label count in node record
-        if let Some(chain) = self.nodes.write().get_mut(&node_id)
-            && let Some(record) = chain.latest_mut()
-        {
-            let count = self.node_labels.read().get(&node_id).map_or(0, |s| s.len());
+        if let Some(record) = chain.latest_mut() {
             record.set_label_count(count as u16);
         }
 
@@ -1528,17 +1522,6 @@ impl LpgStore {
     pub fn remove_label(&self, node_id: NodeId, label: &str) -> bool {
         let epoch = self.current_epoch();
 
-        // Check if node exists
-        let nodes = self.nodes.read();
-        if let Some(chain) = nodes.get(&node_id) {
-            if chain.visible_at(epoch).map_or(true, |r| r.is_deleted()) {
-                return false;
-            }
-        } else {
-            return false;
-        }
-        drop(nodes);
-
         // Get label ID
         let label_id = {
             let label_ids = self.label_to_id.read();
@@ -1548,28 +1531,35 @@ impl LpgStore {
             }
         };
 
-        // Remove from node_labels map
-        let mut node_labels = self.node_labels.write();
-        if let Some(label_set) = node_labels.get_mut(&node_id) {
-            if !label_set.remove(&label_id) {
-                return false; // Node doesn't have this label
-            }
-        } else {
+        // Same locking discipline as add_label: documented order, held for the whole update.
+        let mut nodes = self.nodes.write();
+        let Some(chain) = nodes.get_mut(&node_id) else {
+            return false;
+        };
+        if chain.visible_at(epoch).map_or(true, |r| r.is_deleted()) {
             return false;
         }
-        drop(node_labels);
+        let mut index = self.label_index.write();
+        let mut node_labels = self.node_labels.write();
+
+        // Remove from node_labels map
+        let count = match node_labels.get_mut(&node_id) {
+            Some(label_set) => {
+                if !label_set.remove(&label_id) {
+                    return false; // Node doesn't have this label
+                }
+                label_set.len()
+            }
+            None => return false,
+        };
 
         // Remove from label_index
-        let mut index = self.label_index.write();
         if (label_id as usize) < index.len() {
             index[label_id as usize].remove(&node_id);
         }
 
         // Update label count in node record
-        if let Some(chain) = self.nodes.write().get_mut(&node_id)
-            && let Some(record) = chain.latest_mut()
-        {
-            let count = self.node_labels.read().get(&node_id).map_or(0, |s| s.len());
+        if let Some(record) = chain.latest_mut() {
             record.set_label_count(count as u16);
         }
 
